@@ -70,7 +70,10 @@ class SimFile:
         pass
 
     def fileno(self):
-        raise io.UnsupportedOperation("fileno")
+        fd = getattr(self, "_fd", None)
+        if fd is None:
+            raise io.UnsupportedOperation("fileno")
+        return fd
 
     def tell(self):
         return self.written if ("w" in self.mode or "a" in self.mode) else self._rpos
@@ -122,6 +125,7 @@ class SimFile:
         if self.closed:
             return
         self.closed = True
+        self.disk.fds.pop(getattr(self, "_fd", None), None)
         if self.fault.get("kind") == "eio_close" and not self.fault.get("fired"):
             self.fault["fired"] = True
             self.disk.fired["eio_close"] = self.disk.fired.get("eio_close", 0) + 1
@@ -161,6 +165,8 @@ class SimDisk:
         self.fired = {}
         self.opens = []
         self.crashed = False
+        self.fds = {}              # simulated file descriptors (os.open / mkstemp)
+        self.next_fd = 1_000_000
 
     def _append(self, path, raw, at=None):
         cur = self.files.get(path, b"")
@@ -317,9 +323,65 @@ def install_sim_os(disk, clock=None):
             return False
 
     def sim_open(file, mode="r", *a, **kw):
+        if isinstance(file, int) and file in disk.fds:
+            f = disk.fds[file]            # os.fdopen() of a descriptor obtained from the simulated os.open
+            f.binary = "b" in mode
+            return f
         if is_sim(file):
             return disk.open(file, mode)
         return real_open(file, mode, *a, **kw)
+
+    # descriptor-level API (tempfile.mkstemp + os.fdopen, os.open/os.write/os.close)
+    real_os_open, real_close, real_write, real_fsync, real_fstat = os.open, os.close, os.write, os.fsync, os.fstat
+
+    def os_open(path, flags, mode=0o777, *a, **kw):
+        if not is_sim(path):
+            return real_os_open(path, flags, mode, *a, **kw)
+        p = str(os.fspath(path))
+        exists = p in disk.files
+        if flags & os.O_CREAT and flags & os.O_EXCL and exists:
+            raise FileExistsError(errno.EEXIST, "File exists (simulated)", p)
+        if not exists and not flags & os.O_CREAT:
+            raise FileNotFoundError(errno.ENOENT, "No such file (simulated)", p)
+        acc = flags & os.O_ACCMODE
+        if acc == os.O_RDONLY:
+            fm = "rb"
+        elif flags & os.O_APPEND:
+            fm = "ab"
+        elif flags & os.O_TRUNC or not exists:
+            fm = "wb"
+        else:
+            fm = "r+b"
+        f = disk.open(p, fm)
+        disk.next_fd += 1
+        disk.fds[disk.next_fd] = f
+        f._fd = disk.next_fd
+        return disk.next_fd
+
+    def os_close(fd):
+        if fd in disk.fds:
+            disk.fds.pop(fd).close()
+            return None
+        return real_close(fd)
+
+    def os_write(fd, data):
+        if fd in disk.fds:
+            return disk.fds[fd].write(bytes(data))
+        return real_write(fd, data)
+
+    def os_fsync(fd):
+        if hasattr(fd, "fileno"):
+            fd = fd.fileno()
+        if fd in disk.fds:
+            return None
+        return real_fsync(fd)
+
+    def os_fstat(fd):
+        if fd in disk.fds:
+            return _Stat(len(disk.files.get(disk.fds[fd].path, b"")))
+        return real_fstat(fd)
+
+    os.open, os.close, os.write, os.fsync, os.fstat = os_open, os_close, os_write, os_fsync, os_fstat
 
     builtins.open = sim_open
     io.open = sim_open
@@ -350,7 +412,16 @@ def install_sim_os(disk, clock=None):
     os.unlink = wrap(os.unlink, disk.remove)
     os.stat = wrap(os.stat, lambda p, *a, **k: _Stat(disk.getsize(p)))
     os.makedirs = wrap(os.makedirs, lambda p, *a, **k: None)
-    os.fsync = os.fsync
+    is_dir = lambda p: str(os.fspath(p)).rstrip("/") == SIM_ROOT.rstrip("/")    # noqa: E731
+    os.chmod = wrap(os.chmod, lambda p, *a, **k: None)
+    os.utime = wrap(os.utime, lambda p, *a, **k: None)
+    os.chown = wrap(os.chown, lambda p, *a, **k: None) if hasattr(os, "chown") else None
+    os.access = wrap(os.access, lambda p, *a, **k: disk.exists(p))
+    os.lstat = wrap(os.lstat, lambda p, *a, **k: _Stat(disk.getsize(p)))
+    os.listdir = wrap(os.listdir, lambda p=".": sorted(k[len(SIM_ROOT):] for k in disk.files))
+    os.mkdir = wrap(os.mkdir, lambda p, *a, **k: None)
+    osp.isdir = wrap(osp.isdir, is_dir)
+    osp.lexists = wrap(osp.lexists, disk.exists)
     osp.exists = wrap(osp.exists, disk.exists)
     osp.isfile = wrap(osp.isfile, lambda p: str(os.fspath(p)) in disk.files)
     osp.getsize = wrap(osp.getsize, disk.getsize)
@@ -358,6 +429,10 @@ def install_sim_os(disk, clock=None):
         import shutil
         shutil.move = wrap2(shutil.move, disk.replace)
         shutil.copyfile = wrap2(shutil.copyfile, lambda s, d: disk.files.__setitem__(str(d), disk.files[str(s)]))
+        shutil.copy = wrap2(shutil.copy, lambda s, d: disk.files.__setitem__(str(d), disk.files[str(s)]))
+        shutil.copy2 = wrap2(shutil.copy2, lambda s, d: disk.files.__setitem__(str(d), disk.files[str(s)]))
+        shutil.copymode = wrap2(shutil.copymode, lambda s, d: None)
+        shutil.copystat = wrap2(shutil.copystat, lambda s, d: None)
     except Exception:
         pass
     if clock is not None:
